@@ -2,6 +2,14 @@
 FIELD_TB = ["section hypothesis field_theory (theorems hold for every field; the executable instance is Z mod p, Base/Zp.v)"]
 
 PROPS = {
+    "C04": {
+        "cmd": "c04",
+        "timeout": 1200,
+        "props": ["C04.v"],
+        "trusted_base": FIELD_TB + ["the documented meaning of each API call is transcribed by hand in Frontend/Spec.v (Coq) and harness/prog.go (Go)",
+                                    "gadget relation lemmas (Frontend/Gadgets.v, LeqCst.v) are about the constraint patterns read in api.go; the emitted constraints themselves are decided by the C05 enumerator"],
+        "assumptions": ["programs are sampled; option sweep: constants vs variables, operand order, compress threshold {2,3,300}, 5 scalar fields, both builders"],
+    },
     "C05": {
         "cmd": "c05",
         "timeout": 1200,
